@@ -22,7 +22,7 @@
 #define ND 8
 enum { T_SET, T_GET, T_YIELD, T_KCREATE, T_KDELETE, T_SET_OOR, T_GET_OOR, T_N };
 enum { E_RETURN, E_EXIT, E_CANCEL };
-typedef struct { int kind, key, dt; } tlop_t;
+typedef struct { int kind, key, dt, ref; } tlop_t;   /* ref >= 0: SET / GET address the key created by this thread's op number ref */
 #define MAXTL 40
 static struct {
   int n0, NT, exhaust, gens; int nop[4]; tlop_t op[4][MAXTL]; int exitmode[4];
@@ -45,7 +45,7 @@ static void * mkval(int t, int k) { return (void *)(uintptr_t)(0x100000000ULL + 
 static int val_thread(void * v) { return (int)(((uintptr_t)v >> 28) & 0xf); }
 static int val_key(void * v) { return (int)(((uintptr_t)v >> 12) & 0xffff); }
 
-static long st_get, st_set, st_oor, st_kc, st_kd, st_migr, st_high, st_sparse;
+static long st_get, st_set, st_oor, st_kc, st_kd, st_migr, st_high, st_sparse, st_set_own;
 static int expected_at_exit[4][NKEYS]; static void * expected_val[4][NKEYS];
 
 static void model_create(int key, int dt, int by) {
@@ -61,8 +61,9 @@ static void * tbody(void * a) {
     tlop_t * o = &P.op[t][i];
     switch (o->kind) {
     case T_SET: {
-      int key = created[o->key];
-      if (!live[key]) break;
+      int key = o->ref >= 0 ? P.op[t][o->ref].key : created[o->key];
+      if (key < 0 || !live[key]) break;
+      if (o->ref >= 0) st_set_own++;
       void * v = mkval(t, key);
       int rc = myth_setspecific(key, v);
       if (rc) mt_fail("setspecific(%d) returned %d", key, rc);
@@ -70,8 +71,8 @@ static void * tbody(void * a) {
       if (key >= 16) st_high++;
       break; }
     case T_GET: {
-      int key = created[o->key];
-      if (!live[key]) break;
+      int key = o->ref >= 0 ? P.op[t][o->ref].key : created[o->key];
+      if (key < 0 || !live[key]) break;
       void * v = myth_getspecific(key);
       st_get++;
       if (mval[t][key].set && mval[t][key].inc == incarnation[key]) {
@@ -153,11 +154,12 @@ static void run_tls(mt_case * c, int prop) {
       tlop_t * o = &P.op[t][i]; unsigned b = rd_u8(r);
       int kind = (int[]){ T_SET, T_SET, T_GET, T_GET, T_YIELD, T_SET, T_GET, T_KCREATE, T_KDELETE, T_SET_OOR, T_GET_OOR, T_SET }[b % 12];
       if (prop == 11 && (kind == T_KDELETE || kind == T_GET_OOR || kind == T_SET_OOR)) kind = T_SET;
-      o->kind = kind; o->dt = -1;
+      o->kind = kind; o->dt = -1; o->ref = -1;
       /* key choice biased to the boundaries of the live set */
       unsigned kb = rd_u16(r);
       int idx = (kb & 3) == 0 ? 0 : (kb & 3) == 1 ? nlive - 1 : (int)((kb >> 2) % (unsigned)nlive);
       o->key = livekeys[idx];
+      if ((kind == T_SET || kind == T_GET) && ncr && (kb & 0xc000) == 0xc000) o->ref = created_ops[(kb >> 4) % (unsigned)ncr];   /* a key this thread created itself (possibly on a recycled index) */
       if (kind == T_KCREATE) { o->dt = (kb & 4) ? (int)((kb >> 3) % ND) : -1; created_ops[ncr++] = i; o->key = -1; }
       if (kind == T_KDELETE) { if (!ncr) { o->kind = T_YIELD; } else o->dt = created_ops[(kb >> 2) % (unsigned)ncr]; }
       if (kind == T_SET_OOR || kind == T_GET_OOR) o->key = (int)(kb >> 2);
@@ -224,7 +226,7 @@ static void run_tls(mt_case * c, int prop) {
   mt_lib_finish();
   mt_stat("sets", st_set); mt_stat("gets", st_get); mt_stat("out_of_range", st_oor); mt_stat("key_creates", st_kc); mt_stat("key_deletes", st_kd);
   mt_stat("dtor_calls", calls); mt_stat("dtor_null_calls", nullcalls); mt_stat("dtor_expected", expected); mt_stat("sets_key_ge16", st_high); mt_stat("migrated", st_migr);
-  if (st_high) mt_label("key_ge_16"); if (livekeys[nlive - 1] >= 256) mt_label("key_ge_256"); if (livekeys[nlive - 1] == 1023) mt_label("key_1023");
+  if (st_high) mt_label("key_ge_16"); if (livekeys[nlive - 1] >= 256) mt_label("key_ge_256"); if (livekeys[nlive - 1] == 1023) mt_label("key_1023"); if (st_set_own) mt_label("set_on_key_created_in_script");
   if (st_sparse) mt_label("lower_branch_empty"); if (P.exhaust) mt_label("exhausted"); if (st_kd) mt_label("reuse_after_delete"); if (st_oor) mt_label("out_of_range");
   if (expected) mt_label("destructor_expected"); if (st_migr) mt_label("migrated"); if (P.gens > 1) mt_label("records_reused_by_later_threads");
   if (prop == 10) mt_nontrivial(st_get > 0 && (st_high > 0 || st_kd > 0 || st_migr > 0));
